@@ -5,7 +5,8 @@
                   new / new:old with exponents, re-expression in base units: only base units appear, dimensionality and
                   physical value preserved, idempotent).
 2. spec -> code : every edit behaviour of length 3 executed on real Group / System objects with members of every group and
-                  system compared after each step (and compatible-unit queries restricted to them); every (system, probe)
+                  system compared after each step (and compatible-unit queries restricted to them), three times: reading everything
+                  after each step, reading only the systems until the last step, reading nothing until the last step; every (system, probe)
                   of MC_C14b through to_base_units / ito_base_units / get_base_units(system=) / default_system switching.
 3. code -> spec : bundled registry: members of all groups and systems, to_base_units of every canonical unit and random
                   compounds under each of the 7 systems (and none), restricted compatible-unit listings; recomputed by
@@ -59,56 +60,64 @@ def membership(chk, thorough):
         behs += got
     # vacuity is judged on what was generated (a replay stops at the first divergence of a behaviour)
     ops_seen = {h["op"][0] for hist, _ in behs for h in hist}
+    # every behaviour is executed three times: reading every group and system after each step ("all"), reading only the
+    # systems - the outermost readers - until the last step ("systems"), and reading nothing until the last step ("last"):
+    # what is read in between may not matter (edits are immediate for every reader, whichever caches were filled)
     for hist, GL in behs:
-        u = pint.UnitRegistry(GL)
-        chk.case(tuple(repr(h["op"]) for h in hist), nontrivial=any(h["op"][0] != "query" for h in hist), sample={"ops": [h["op"] for h in hist]})
-        for k, h in enumerate(hist):
-            op = h["op"]
-            res = "ok"
-            try:
-                if op[0] == "add_units":
-                    u.get_group(op[1]).add_units(op[2])
-                elif op[0] == "remove_units":
-                    u.get_group(op[1]).remove_units(op[2])
-                elif op[0] == "add_groups":
-                    u.get_group(op[1]).add_groups(op[2])
-                elif op[0] == "remove_groups":
-                    u.get_group(op[1]).remove_groups(op[2])
-                elif op[0] == "sys_add_groups":
-                    u.get_system(op[1], False).add_groups(op[2])
-                elif op[0] == "sys_remove_groups":
-                    u.get_system(op[1], False).remove_groups(op[2])
-            except ValueError:
-                res = "error"
-            except (RecursionError, Exception) as e:
-                chk.diverge({"clause": "operation-raises", "op": op[0], "exc": type(e).__name__}, {"registry": GL, "ops": [x["op"] for x in hist[:k + 1]]})
-                break
-            exp_g = {g: set(v) for g, v in h["obs"]["groups"].items()}
-            exp_s = {s: set(v) for s, v in h["obs"]["systems"].items()}
-            try:
-                got_g = {g: set(u.get_group(g).members) for g in exp_g}
-                got_s = {s: set(u.get_system(s, False).members) for s in exp_s}
-            except (RecursionError, Exception) as e:
-                chk.diverge({"clause": "members-raise", "op": op[0], "exc": type(e).__name__}, {"registry": GL, "ops": [x["op"] for x in hist[:k + 1]]})
-                break
-            bad = None
-            if res != h["res"]:
-                bad = ("outcome", {"expected": h["res"], "observed": res})
-            elif got_g != exp_g:
-                bad = ("group-members", {"expected": {g: sorted(v) for g, v in exp_g.items()}, "observed": {g: sorted(v) for g, v in got_g.items()}})
-            elif got_s != exp_s:
-                bad = ("system-members", {"expected": {g: sorted(v) for g, v in exp_s.items()}, "observed": {g: sorted(v) for g, v in got_s.items()}})
-            else:
-                # compatible units restricted to a group / system = same-dimension units among its members
-                for scope, mem in list(exp_g.items()) + list(exp_s.items()):
-                    lst = {next(iter((1 * x).unit_items()))[0] for x in u.get_compatible_units("a", scope)}
-                    if lst != (mem & {"a", "x", "y"}):
-                        bad = ("compatible-in-scope", {"scope": scope, "expected": sorted(mem & {"a", "x", "y"}), "observed": sorted(lst)})
-                        break
-            if bad:
-                chk.diverge({"clause": bad[0], "op": op[0], "after_query": any(x["op"][0] == "query" for x in hist[:k])},
-                            dict(bad[1], registry=GL, ops=[x["op"] for x in hist[:k + 1]]))
-                break
+      for mode in ("all", "systems", "last"):
+            u = pint.UnitRegistry(GL)
+            chk.case((mode,) + tuple(repr(h["op"]) for h in hist), nontrivial=any(h["op"][0] != "query" for h in hist), sample={"ops": [h["op"] for h in hist], "readers": mode})
+            for k, h in enumerate(hist):
+                op = h["op"]
+                res = "ok"
+                try:
+                    if op[0] == "add_units":
+                        u.get_group(op[1]).add_units(op[2])
+                    elif op[0] == "remove_units":
+                        u.get_group(op[1]).remove_units(op[2])
+                    elif op[0] == "add_groups":
+                        u.get_group(op[1]).add_groups(op[2])
+                    elif op[0] == "remove_groups":
+                        u.get_group(op[1]).remove_groups(op[2])
+                    elif op[0] == "sys_add_groups":
+                        u.get_system(op[1], False).add_groups(op[2])
+                    elif op[0] == "sys_remove_groups":
+                        u.get_system(op[1], False).remove_groups(op[2])
+                except ValueError:
+                    res = "error"
+                except (RecursionError, Exception) as e:
+                    chk.diverge({"clause": "operation-raises", "op": op[0], "exc": type(e).__name__}, {"registry": GL, "ops": [x["op"] for x in hist[:k + 1]]})
+                    break
+                exp_g = {g: set(v) for g, v in h["obs"]["groups"].items()}
+                exp_s = {s: set(v) for s, v in h["obs"]["systems"].items()}
+                if mode != "all" and k < len(hist) - 1:
+                    exp_g = {}
+                    if mode == "last":
+                        exp_s = {}
+                try:
+                    got_g = {g: set(u.get_group(g).members) for g in exp_g}
+                    got_s = {s: set(u.get_system(s, False).members) for s in exp_s}
+                except (RecursionError, Exception) as e:
+                    chk.diverge({"clause": "members-raise", "op": op[0], "exc": type(e).__name__}, {"registry": GL, "ops": [x["op"] for x in hist[:k + 1]]})
+                    break
+                bad = None
+                if res != h["res"]:
+                    bad = ("outcome", {"expected": h["res"], "observed": res})
+                elif got_g != exp_g:
+                    bad = ("group-members", {"expected": {g: sorted(v) for g, v in exp_g.items()}, "observed": {g: sorted(v) for g, v in got_g.items()}})
+                elif got_s != exp_s:
+                    bad = ("system-members", {"expected": {g: sorted(v) for g, v in exp_s.items()}, "observed": {g: sorted(v) for g, v in got_s.items()}})
+                else:
+                    # compatible units restricted to a group / system = same-dimension units among its members
+                    for scope, mem in list(exp_g.items()) + list(exp_s.items()):
+                        lst = {next(iter((1 * x).unit_items()))[0] for x in u.get_compatible_units("a", scope)}
+                        if lst != (mem & {"a", "x", "y"}):
+                            bad = ("compatible-in-scope", {"scope": scope, "expected": sorted(mem & {"a", "x", "y"}), "observed": sorted(lst)})
+                            break
+                if bad:
+                    chk.diverge({"clause": bad[0], "op": op[0], "readers": mode, "after_query": any(x["op"][0] == "query" for x in hist[:k])},
+                                dict(bad[1], registry=GL, ops=[x["op"] for x in hist[:k + 1]]))
+                    break
     chk.traces += len(behs)
     if not {"add_units", "remove_units", "add_groups", "remove_groups", "sys_add_groups", "sys_remove_groups", "query"} <= ops_seen:
         raise MachineryError("vacuous generator: ops %s" % sorted(ops_seen))
